@@ -558,6 +558,16 @@ JudgeRroute(e) ==
             /\ e.lists_sorted     \* strictly ascending by denom, as observed on the response (TLC does not order strings)
             /\ FeeListIs(e.swap_fees, ch, "swap") /\ FeeListIs(e.protocol_fees, ch, "protocol") /\ FeeListIs(e.burn_fees, ch, "burn")
             /\ FeeListIs(e.extra_fees, ch, "extra") /\ FeeListIs(e.slippage_amounts, ch, "slip")) ]
+(* beyond the listed properties (S_): on a simple route the fee lists of the forward route quote are the fees the executed hops
+   charged, summed per denom paid out, zero sums left out, strictly ascending by denom *)
+RouteQuoteFees(e) ==
+  LET n == Len(e.hops)
+      simple == Cardinality({e.hops[k].pool : k \in 1..n}) = n
+      full == /\ e.ok /\ n > 0 /\ simple /\ e.quote.ok /\ Len(e.per_hop) = n /\ "swap_fees" \in DOMAIN e.quote
+              /\ \A k \in 1..n : {"swap_fee", "protocol_fee", "burn_fee"} \subseteq DOMAIN e.per_hop[k]
+      ch == [k \in 1..n |-> [out |-> e.hops[k].out, swap |-> e.per_hop[k].swap_fee, protocol |-> e.per_hop[k].protocol_fee, burn |-> e.per_hop[k].burn_fee]]
+  IN [ S_route_quote_fee_lists_are_the_executed_fees |-> G(full, /\ e.quote.lists_sorted /\ FeeListIs(e.quote.swap_fees, ch, "swap")
+                                                                  /\ FeeListIs(e.quote.protocol_fees, ch, "protocol") /\ FeeListIs(e.quote.burn_fees, ch, "burn")) ]
 (* C16 seen through the AssetDecimals query: the decimals of a pool's denom are the ones recorded at creation, at the position of
    that denom in the pool's asset list; a denom the pool does not hold, or an unknown pool, is refused *)
 DIdx(pl, d) == CHOOSE i \in DOMAIN pl.denoms : pl.denoms[i] = d
@@ -593,7 +603,7 @@ Judge(s, e) ==
                                 Must(Pools(e.post) = Pools(s) /\ e.post.bal = s.bal /\ e.post.supply = s.supply) ]   \* a close in the farm manager moves no money
     [] e.ev = "donate" -> JudgeDonate(s, e, e.post)
     [] e.ev = "pm_swap" -> JudgeSwap(s, e, e.post)
-    [] e.ev = "pm_route" -> JudgeRoute(s, e, e.post)
+    [] e.ev = "pm_route" -> JudgeRoute(s, e, e.post) @@ RouteQuoteFees(e)
     [] e.ev = "pm_provide" -> IF e.single THEN JudgeProvideSingle(s, e, e.post) ELSE JudgeProvide(s, e, e.post)
     [] e.ev = "pm_withdraw" -> JudgeWithdraw(s, e, e.post)
     [] e.ev = "pm_create_pool" -> JudgeCreatePool(s, e, e.post)
